@@ -123,6 +123,7 @@ def check(chk: Check) -> None:
     def audit_memo(q_, fi_, memo_text):
             params = {('param', a.arg) for a in fi_.node.args.args + fi_.node.args.kwonlyargs}
             textual = []
+            mutable = []
 
             def scan(t):
                 t = freeze(t)
@@ -156,12 +157,33 @@ def check(chk: Check) -> None:
                         return False
                     if holds(p.outcome[1]):
                         textual.append('the result holds the argument object itself: %s' % show(p.outcome[1])[:80])
+                    # a mutable result: every later call with equal arguments - from any parser, any names mapping - gets the very
+                    # object an earlier caller may have changed (a list popped from, a lexer left in the middle of another text)
+                    try:
+                        from .c02 import Kinds
+                        ks_ = Kinds(F, {a.arg for a in fi_.node.args.args + fi_.node.args.kwonlyargs})
+                        kk_ = ks_.kind(p.outcome[1])
+                    except Exception:
+                        kk_ = 'unknown'
+                    ot_ = freeze(p.outcome[1])
+
+                    def ply_object(t):
+                        if isinstance(t, tuple) and t[:1] == ('call',) and isinstance(t[2], tuple) and t[2][:1] == ('ref',) and \
+                                isinstance(t[2][-1], str) and '.ply.' in t[2][-1]:
+                            return True
+                        return isinstance(t, tuple) and t[:1] in (('tuple',), ('list',)) and any(ply_object(x) for x in t[1:])
+                    if kk_ in ('list', 'dict', 'set', 'other-object', 'iterator') or ply_object(ot_):
+                        mutable.append('%s (%s)' % (show(p.outcome[1])[:70], 'a PLY lexer / parser object' if ply_object(ot_) else kk_))
                 for e in p.events:
                     if e.kind == 'call':
                         scan(tuple(freeze(e.args)))
                         scan(freeze(e.func))
                     if e.kind in ('store_sub', 'store_attr'):
                         scan(freeze(e.value))
+            if mutable:
+                chk.bad(R1, '%s :: memoised (%s) returns a mutable object' % (q_, memo_text), fi_.where,
+                        'the cache hands the same object to every caller: %s - what one call does to it (pop, push, lexing another '
+                        'text) is what the next call finds' % '; '.join(sorted(set(mutable))[:2]))
             chk.require(not textual, R1, '%s :: memoised (%s)' % (q_, memo_text), fi_.where,
                         'the cache is keyed by == / hash, but the result depends on the text of an argument (%s): equal numbers written '
                         'differently (1 / 1.0, 20000 / 20000.00) share one entry, so a call returns what an earlier call left behind'
@@ -171,9 +193,17 @@ def check(chk: Check) -> None:
     for q_, fi_ in sorted(F.functions.items()):
         if '.ply' in fi_.module.name or not isinstance(fi_.node, ast.FunctionDef):
             continue
-        memo = [d for d in fi_.node.decorator_list
-                if (isinstance(d, ast.Call) and norm(d.func).rsplit('.', 1)[-1] in MEMO)
-                or (not isinstance(d, ast.Call) and norm(d).rsplit('.', 1)[-1] in MEMO)]
+        def is_memo(d, m_=fi_.module):
+            if isinstance(d, ast.Call):
+                return norm(d.func).rsplit('.', 1)[-1] in MEMO
+            if norm(d).rsplit('.', 1)[-1] in MEMO:
+                return True
+            # an alias made at module level: _cached = functools.lru_cache(maxsize=1024) ... @_cached
+            if isinstance(d, ast.Name) and len(m_.assigns.get(d.id, [])) == 1 and m_.assigns[d.id][0] is not None:
+                v0 = m_.assigns[d.id][0]
+                return norm(v0.func if isinstance(v0, ast.Call) else v0).rsplit('.', 1)[-1] in MEMO
+            return False
+        memo = [d for d in fi_.node.decorator_list if is_memo(d)]
         if memo:
             audit_memo(q_, fi_, norm(memo[0]))
     # the same wrappers applied by hand at module level: NAME = lru_cache(maxsize=...)(f) / cache(f), f a builtin, a lambda or
